@@ -231,6 +231,20 @@ reg(PoolCheck(
 ))
 
 
+reg(PoolCheck(
+    "C15", P(sizes=[0, 1, 2, 3, 5, None], size_track=True, cls=["T", "S"], npools=[1],
+             w={"set_size": 10, "apply": 8, "start": 8, "map": 0, "open": 8, "idle": 6, "cancel": 2, "stop": 2, "cancel_group": 1, "cancel_all": 0.3,
+                "flush": 1, "gac": 0, "reject": 0, "probe": 0, "lock": 0.3, "unlock": 0.3, "intruder": 1},
+             gate=0.6, final_gac=0.3, inner_ops=0.05, self_cancel_no_suspend=0.0),
+    "random histories of pool_size assignments (old/new over {0,1,2,3,5,unbounded}, negative values) at every occupancy 0..old with 0..n invocations waiting for room, "
+    "gated workers; pool_size is read at every handle boundary and user-code point; non-trivial = an assignment happened while tasks were running or waiting; distinct by signature",
+    lambda s: any(k.endswith(".busy") or k.endswith(".waiting") for k in s if k.startswith("C15.assign")),
+    3000, 120000,
+    floors={"C15.assign.grow.waiting": 300, "C15.assign.shrink.busy": 300, "C15.assign.below_running": 100, "C15.negative": 300,
+            "C15.reports_checked.busy": 20000, "C15.begin_after_assign": 1000, "C15.idle_with_waiting": 500},
+))
+
+
 def get(cid):
     if cid not in CHECKS:
         try:
